@@ -46,7 +46,7 @@ typedef struct {
     cfg_t cfg; mx_cfg mc; const char *cls; char spec[512]; char keytail[96];
     const char *fates; int nf;
     struct { int step, ep, fired; } sp[8]; int nsp;
-    mx_ep C, S; int sExists, sResumedComplete; sslSessionId_t *sid;
+    mx_ep C, S; int sExists, sResumedComplete; sslSessionId_t *sid, *ownSid;
     dg_t net[MAXNET]; int nnet;
     int sendIdx, step, round, roundsSinceInterf, quietT, totT, retxFlights, retxDg, dupDelivered, dropped;
     int complete[2];             /* handshake complete has been observed (must never revert) */
@@ -265,9 +265,17 @@ static void app_send(mx_ep *e, int serial)
 }
 
 /* ---- simulation ---- */
+static void sim_free(void)
+{
+    if (G.C.ssl) mx_ep_free(&G.C);
+    if (G.sExists && G.S.ssl) mx_ep_free(&G.S);
+    if (G.ownSid) { matrixSslDeleteSessionId(G.ownSid); G.ownSid = NULL; }
+    for (int i = 0; i < G.nnet; i++) free(G.net[i].d);
+    G.nnet = 0;
+}
 static void sim_init(const cfg_t *c, const char *cls, const char *fates, const char *spur, sslSessionId_t *sid)
 {
-    for (int i = 0; i < G.nnet; i++) free(G.net[i].d);
+    sim_free();
     memset(&G, 0, sizeof G);
     G.cfg = *c; G.cls = cls; G.fates = fates; G.nf = (int) strlen(fates); G.verbose = vf_verbose;
     G.mc = (mx_cfg) { .ver = c->ver, .suite = c->suite, .clientAuth = c->kind == K_CAUTH };
@@ -285,7 +293,7 @@ static void sim_init(const cfg_t *c, const char *cls, const char *fates, const c
 static int sim_handshake(void)
 {
     sslSessionId_t *sid = G.sid;
-    if (!sid) matrixSslNewSessionId(&sid, NULL);
+    if (!sid) { matrixSslNewSessionId(&sid, NULL); G.ownSid = sid; }
     if (mx_new_client(&G.C, &G.mc, sid) < 0) { vf_incon("client session creation failed in %s", G.spec); G.failed = 1; return 0; }
     G.C.on_app = on_app;
     if (g_record_rank && g_rank[0][G.C.ssl->hsState] < 0) g_rank[0][G.C.ssl->hsState] = g_nrank[0]++;
@@ -387,7 +395,7 @@ static void run_schedule_case(const cfg_t *c, const char *cls, const char *fates
     vf_distinct("S/%d/%04x/%d/%d/%s/%s", c->ver, c->suite, c->pmtu, c->kind, sig, spur ? spur : "");
     if (G.retxFlights) vf_stat("schedules_with_retransmission", 1);
     TRACE("END %s ok=%d rounds=%d timeouts=%d retx=%d sent=%d\n", G.spec, ok, G.round, G.totT, G.retxFlights, G.sendIdx);
-    mx_ep_free(&G.C); if (G.sExists) mx_ep_free(&G.S);
+    sim_free();
 }
 
 /* ---- configuration set-up in the parent: clean run (rank table, datagram count), session for resumption ---- */
@@ -406,7 +414,7 @@ static void cfg_prepare(cfgstate_t *cs)
         sim_init(&full, "setup", "", "", cs->sid);
         if (!sim_handshake()) { vf_incon("set-up handshake failed for %s %04x pmtu %d", mx_vername[cs->c.ver], cs->c.suite, cs->c.pmtu); return; }
         sim_clean_exchange(900, "set-up");
-        mx_ep_free(&G.C); mx_ep_free(&G.S);
+        sim_free();
     }
     memset(g_rank, 0xff, sizeof g_rank); g_record_rank = 1; g_nrank[0] = g_nrank[1] = 0;
     sim_init(&cs->c, "setup", "", "", cs->sid);
@@ -416,7 +424,7 @@ static void cfg_prepare(cfgstate_t *cs)
     if (cs->c.kind == K_RESUMED && !(G.S.ssl->flags & SSL_FLAGS_RESUMED)) { vf_incon("session was not resumed for %s %04x", mx_vername[cs->c.ver], cs->c.suite); return; }
     cs->ndg = G.sendIdx; cs->nsteps = G.step;
     memcpy(cs->rank, g_rank, sizeof g_rank);
-    mx_ep_free(&G.C); mx_ep_free(&G.S);
+    sim_free();
     cs->usable = 1;
     if (vf_shard == 0) { vf_stat("configurations", 1); vf_statmax("max_datagrams_clean_handshake", cs->ndg); }
 }
@@ -602,7 +610,7 @@ static void run_replays(cfgstate_t *cs, int est, int K, int pairs, const char *o
             vf_fork_case(replay_child, &rc, "c16-replay", G.spec, 60);
         }
     }
-    mx_ep_free(&G.C); mx_ep_free(&G.S);
+    sim_free();
     for (int i = 0; i < G.ncap; i++) free(G.cap[i].d);
     G.ncap = 0;
 }
@@ -645,7 +653,7 @@ int main(int argc, char **argv)
 {
     vf_init(argc, argv); mx_global_init(); mx_keys_load();
     vf_maxsamples = 10;
-    if (vf_case) { setvbuf(stdout, NULL, _IONBF, 0); int rc = run_case_spec(vf_case); mx_keys_free(); matrixSslClose(); vf_flush(); return rc; }
+    if (vf_case) { setvbuf(stdout, NULL, _IONBF, 0); int rc = run_case_spec(vf_case); sim_free(); for (int i = 0; i < nCS; i++) if (CS[i].sid) matrixSslDeleteSessionId(CS[i].sid); mx_keys_free(); matrixSslClose(); vf_flush(); return rc; }
 
     static const int pmtus[] = { 1500, 600, 400 };   /* 256 cannot carry a 2048-bit RSA ClientKeyExchange / signature in one datagram */
     int T = vf_thorough;
@@ -693,6 +701,8 @@ int main(int argc, char **argv)
             run_replays(cs, est, K, T && (isPsk || cs->c.pmtu == 1500), NULL);
         }
     }
+    sim_free();
+    for (int i = 0; i < nCS; i++) if (CS[i].sid) matrixSslDeleteSessionId(CS[i].sid);
     mx_keys_free(); matrixSslClose();
     vf_flush();
     return 0;
